@@ -1,9 +1,22 @@
 (* Props/C14.v — property C14: chunk concatenation is total, deterministic and
    independent of chunk boundaries. Only statements, each closed by [exact]. *)
-From Eino Require Import Base.Util Model.Concat Model.ConcatMsg Model.ConcatOrder.
+From Eino Require Import Base.Util Model.Concat Model.ConcatMsg Model.ConcatOrder Model.ConcatV0 Model.ConcatUser Model.ConcatMsgMap.
 From Eino Require Import Proofs.Concat Proofs.ConcatRechunk Proofs.ConcatMsg Proofs.ConcatMsgList.
-From Eino Require Import Proofs.ConcatOrder Proofs.ConcatOrderMsg Proofs.ConcatMsgSpec.
+From Eino Require Import Proofs.ConcatOrder Proofs.ConcatOrderMsg Proofs.ConcatMsgSpec Proofs.ConcatUser.
+From Eino Require Import Proofs.ConcatKeyed Proofs.ConcatMsgMap.
 From Coq Require Import Sorting.Sorted Sorting.Permutation.
+
+(* Every theorem quantifies over the registry [U] of concat functions registered by the
+   application and assumes only that these functions themselves are total and invariant
+   under re-chunking ([L : UserLaw], Proofs/Concat.v).  The Examples are evaluated with the
+   registry of the harness (Model/ConcatUser.v), which satisfies the laws: *)
+#[local] Existing Instance harness_user.
+Theorem harness_registry_lawful : @UserLaw harness_user.
+Proof. exact harness_user_law. Qed.
+Print Assumptions harness_registry_lawful.
+(* ... and so does the empty registry. *)
+Theorem empty_registry_lawful : @UserLaw no_user.
+Proof. exact no_user_law. Qed.
 
 (* ------------------------------------------------------------------ generic values *)
 
@@ -12,8 +25,9 @@ From Coq Require Import Sorting.Sorted Sorting.Permutation.
    error, never a panic.  Determinism is by construction: [concat_stream] is a function
    of the chunk list and does not see Go's map iteration order. *)
 Theorem concat_total :
-  forall vs : list cval, (forall v, In v vs -> is_nil v = false) -> concat_stream vs <> Panic.
-Proof. exact concat_stream_total. Qed.
+  forall (U : UserFn) (L : UserLaw) (vs : list cval),
+    (forall v, In v vs -> is_nil v = false) -> concat_stream vs <> Panic.
+Proof. exact @concat_stream_total. Qed.
 Print Assumptions concat_total.
 
 Example concat_total_nonvacuous :
@@ -21,12 +35,22 @@ Example concat_total_nonvacuous :
   = Ok (CMap 0 [("k"%string, CStr "a"); ("j"%string, CNil)]).
 Proof. vm_compute. reflexivity. Qed.
 
+(* Finding F-C14 (repaired in /repo by commit 8acc627): before the repair the Extra maps
+   [{"k": nil}] (one chunk is enough) made concatMaps panic; the repaired function returns
+   the key with a nil value. *)
+Theorem concat_panics_refuted :
+  concat_maps_top_v0 [[("k"%string, CNil)]] = Panic /\
+  concat_maps_top_v0 [[("k"%string, CStr "a")]; [("k"%string, CNil)]] = Err E_TYPE /\
+  concat_maps_top [[("k"%string, CNil)]] = Ok [("k"%string, CNil)] /\
+  concat_maps_top [[("k"%string, CStr "a")]; [("k"%string, CNil)]] = Ok [("k"%string, CStr "a")].
+Proof. repeat split; vm_compute; reflexivity. Qed.
+
 (* Re-chunking: for a statically typed chunk stream (all chunks of dynamic type [t]),
    concatenating a non-empty prefix first and then the rest gives exactly the same value
    (first-appearance key order included) as concatenating everything at once, or both
    fail; if the prefix alone fails, the whole fails. No side ever panics. *)
 Theorem concat_rechunk :
-  forall (t : cty) (xs ys : list cval),
+  forall (U : UserFn) (L : UserLaw) (t : cty) (xs ys : list cval),
     xs <> [] -> (forall v, In v (xs ++ ys) -> dyn_ty v = Some t) ->
     match concat_stream xs with
     | Ok c =>
@@ -38,7 +62,7 @@ Theorem concat_rechunk :
     | Err _ => exists e, concat_stream (xs ++ ys) = Err e
     | Panic => False
     end.
-Proof. exact concat_stream_rechunk. Qed.
+Proof. exact @concat_stream_rechunk. Qed.
 Print Assumptions concat_rechunk.
 
 Example concat_rechunk_nonvacuous_ok :
@@ -57,10 +81,39 @@ Example concat_rechunk_nonvacuous_err :
   exists c, concat_stream xs = Ok c /\ concat_stream (c :: ys) = Err E_MULTI /\ concat_stream (xs ++ ys) = Err E_MULTI.
 Proof. eexists. split; [vm_compute; reflexivity|]. split; vm_compute; reflexivity. Qed.
 
+(* Registered custom chunk types (compose.RegisterStreamChunkConcatFunc): the registered
+   function is applied to the chunk list as it is (at top level and under map keys, never
+   to a single chunk), so the theorems above hold for them exactly when the registered
+   function itself is total and invariant under re-chunking ([UserLaw]).  The two
+   functions the harness registers are (harness_registry_lawful); a registered function that
+   counts its chunks is not, and re-chunking changes the result: the hypothesis is needed. *)
+Example registered_types_nonvacuous :
+  concat_stream [COther 6 1; COther 6 2; COther 6 4] = Ok (COther 6 7) /\
+  concat_stream [COther 7 1; COther 7 2] = Ok (COther 7 3) /\
+  concat_stream [COther 7 3; COther 7 2; COther 7 1] = Err E_USER /\
+  concat_stream [COther 7 9] = Ok (COther 7 9) /\
+  concat_stream [CMap 0 [("a"%string, COther 6 1); ("l"%string, COther 7 4)]; CMap 0 [("a"%string, COther 6 5); ("l"%string, CNil)];
+                 CMap 0 [("l"%string, COther 7 1)]]
+    = Ok (CMap 0 [("a"%string, COther 6 6); ("l"%string, COther 7 5)]) /\
+  concat_stream [CMap 0 [("l"%string, COther 7 4)]; CMap 0 [("l"%string, COther 7 4)]] = Err E_USER.
+Proof. repeat split; vm_compute; reflexivity. Qed.
+
+Theorem registered_law_needed_refuted :
+  let xs := [COther 6 0; COther 6 0] in
+  let ys := [COther 6 0] in
+  (forall v, In v (xs ++ ys) -> dyn_ty v = Some (TOther 6)) /\
+  @concat_stream count_user xs = Ok (COther 6 2) /\
+  @concat_stream count_user (COther 6 2 :: ys) = Ok (COther 6 2) /\
+  @concat_stream count_user (xs ++ ys) = Ok (COther 6 3).
+Proof.
+  split; [|repeat split; vm_compute; reflexivity].
+  intros v H. cbn in H. destruct H as [<-|[<-|[<-|[]]]]; reflexivity.
+Qed.
+
 (* The same for concatMaps on any number of maps (the Extra maps of chat messages: no
    single-chunk shortcut, even the empty prefix is allowed). *)
 Theorem concat_maps_rechunk :
-  forall xs ys : list (list (string * cval)),
+  forall (U : UserFn) (L : UserLaw) (xs ys : list (list (string * cval))),
     match concat_maps_top xs with
     | Ok c =>
         match concat_maps_top (c :: ys), concat_maps_top (xs ++ ys) with
@@ -71,7 +124,7 @@ Theorem concat_maps_rechunk :
         end
     | _ => is_ok (concat_maps_top (xs ++ ys)) = false
     end.
-Proof. exact Proofs.ConcatRechunk.concat_maps_rechunk. Qed.
+Proof. exact @Proofs.ConcatRechunk.concat_maps_rechunk. Qed.
 Print Assumptions concat_maps_rechunk.
 
 (* ------------------------------------------------------------------ chat messages *)
@@ -80,14 +133,15 @@ Print Assumptions concat_maps_rechunk.
    concatStreamReader[[]*Message] never panic, whatever the chunks (nil chunks, nil maps,
    nil values under Extra keys, negative numbers, conflicting fields, ...). *)
 Theorem msg_concat_total :
+  forall (U : UserFn) (L : UserLaw),
   (forall l, concat_msgs l <> Panic) /\ (forall l, msg_stream l <> Panic) /\ (forall l, msglist_stream l <> Panic).
-Proof. exact (conj concat_msgs_no_panic (conj msg_stream_no_panic msglist_stream_no_panic)). Qed.
+Proof. intros U L. exact (conj concat_msgs_no_panic (conj msg_stream_no_panic msglist_stream_no_panic)). Qed.
 Print Assumptions msg_concat_total.
 
 (* Re-chunking for schema.ConcatMessages itself: for EVERY prefix [xs] (also a single
    chunk, which ConcatMessages normalises, and the empty one) *)
 Theorem msg_concat_rechunk :
-  forall xs ys : list (option msg),
+  forall (U : UserFn) (L : UserLaw) (xs ys : list (option msg)),
     match concat_msgs xs with
     | Ok c =>
         match concat_msgs (Some c :: ys), concat_msgs (xs ++ ys) with
@@ -98,12 +152,12 @@ Theorem msg_concat_rechunk :
     | Err _ => exists e, concat_msgs (xs ++ ys) = Err e
     | Panic => False
     end.
-Proof. exact msgs_rechunk_strict. Qed.
+Proof. exact @msgs_rechunk_strict. Qed.
 Print Assumptions msg_concat_rechunk.
 
 (* ... and for the stream-level entry points, which return a single chunk unmerged. *)
 Theorem msg_stream_rechunk :
-  forall xs ys : list (option msg),
+  forall (U : UserFn) (L : UserLaw) (xs ys : list (option msg)),
     xs <> [] ->
     match msg_stream xs with
     | Ok c =>
@@ -115,7 +169,7 @@ Theorem msg_stream_rechunk :
     | Err _ => exists e, msg_stream (xs ++ ys) = Err e
     | Panic => False
     end.
-Proof. exact Proofs.ConcatMsg.msg_stream_rechunk. Qed.
+Proof. exact @Proofs.ConcatMsg.msg_stream_rechunk. Qed.
 Print Assumptions msg_stream_rechunk.
 
 (* ------------------------------------------------------------------ message lists *)
@@ -123,7 +177,7 @@ Print Assumptions msg_stream_rechunk.
 (* concatStreamReader[[]*Message] (position-wise concatenation of message lists, nil
    entries skipped, lists of different length rejected): any non-empty prefix. *)
 Theorem msglist_rechunk :
-  forall xs ys : list (list (option msg)),
+  forall (U : UserFn) (L : UserLaw) (xs ys : list (list (option msg))),
     xs <> [] ->
     match msglist_stream xs with
     | Ok c =>
@@ -135,13 +189,13 @@ Theorem msglist_rechunk :
     | Err _ => exists e, msglist_stream (xs ++ ys) = Err e
     | Panic => False
     end.
-Proof. exact Proofs.ConcatMsgList.msglist_stream_rechunk. Qed.
+Proof. exact @Proofs.ConcatMsgList.msglist_stream_rechunk. Qed.
 Print Assumptions msglist_rechunk.
 
 (* ... and for concatMessageArray itself, the function the registry calls (it has no
    single-chunk shortcut; on one list it returns that list). *)
 Theorem msg_arrays_rechunk :
-  forall xs ys : list (list (option msg)),
+  forall (U : UserFn) (L : UserLaw) (xs ys : list (list (option msg))),
     xs <> [] ->
     match concat_msg_arrays xs with
     | Ok c =>
@@ -153,8 +207,79 @@ Theorem msg_arrays_rechunk :
         end
     | _ => is_ok (concat_msg_arrays (xs ++ ys)) = false
     end.
-Proof. exact Proofs.ConcatMsgList.msg_arrays_rechunk. Qed.
+Proof. exact @Proofs.ConcatMsgList.msg_arrays_rechunk. Qed.
 Print Assumptions msg_arrays_rechunk.
+
+(* ------------------------------------------------------------------ maps of messages *)
+
+(* Map chunks whose values may be messages: a map[string]any holding *Message values (the
+   fan-in of message streams) next to ordinary values and nil values, or a
+   map[string]*Message with possibly nil pointers, through concatStreamReader: per key, a
+   single value is kept as it is, several messages go to ConcatMessages, a message next to
+   anything else is a type error. *)
+Theorem msgmap_total :
+  forall (U : UserFn) (L : UserLaw) (l : list (list (string * mval))), mmap_stream l <> Panic.
+Proof. exact @mmap_stream_no_panic. Qed.
+Print Assumptions msgmap_total.
+
+Theorem msgmap_rechunk :
+  forall (U : UserFn) (L : UserLaw) (xs ys : list (list (string * mval))),
+    xs <> [] ->
+    match mmap_stream xs with
+    | Ok c =>
+        match mmap_stream (c :: ys), mmap_stream (xs ++ ys) with
+        | Ok a, Ok b => a = b
+        | Err _, Err _ => True
+        | _, _ => False
+        end
+    | Err _ => exists e, mmap_stream (xs ++ ys) = Err e
+    | Panic => False
+    end.
+Proof. exact @Proofs.ConcatMsgMap.mmap_stream_rechunk. Qed.
+Print Assumptions msgmap_rechunk.
+
+(* The lifting behind it, for any value type: when the concatenation of the values found
+   under one key satisfies the re-chunking law, so does the key-wise concatenation of map
+   chunks (first-appearance key order included). *)
+Theorem keyed_lifting :
+  forall (A : Type) (kc : list A -> res A),
+    (forall vs rest,
+       match kc vs with
+       | Ok v => match kc (v :: rest), kc (vs ++ rest) with
+                 | Ok a, Ok b => a = b | Ok _, _ => False | _, Ok _ => False | _, _ => True end
+       | _ => is_ok (kc (vs ++ rest)) = false
+       end) ->
+    forall xs ys : list (list (string * A)),
+      match kstep kc xs with
+      | Ok c => match kstep kc (c :: ys), kstep kc (xs ++ ys) with
+                | Ok a, Ok b => a = b | Ok _, _ => False | _, Ok _ => False | _, _ => True end
+      | _ => is_ok (kstep kc (xs ++ ys)) = false
+      end.
+Proof. exact @kstep_rechunk. Qed.
+Print Assumptions keyed_lifting.
+
+(* Interleaving: the key-wise concatenation depends on the chunk list only through the
+   sequence of values found under each key.  Two chunk lists carrying the same values per
+   key — two interleavings of the streams a fan-in merges, or the same data cut into other
+   chunks — give maps that agree on every key (and fail together). *)
+Theorem interleaving_independent :
+  forall (A : Type) (kc : list A -> res A) (ms ms' : list (list (string * A))),
+    (forall k, gvals_at k ms = gvals_at k ms') ->
+    match kstep kc ms, kstep kc ms' with
+    | Ok a, Ok b => forall k, alist_get k a = alist_get k b
+    | Ok _, _ => False
+    | _, Ok _ => False
+    | _, _ => True
+    end.
+Proof. exact @kstep_interleaving. Qed.
+Print Assumptions interleaving_independent.
+
+(* both concatMaps models are instances of that pass *)
+Theorem maps_are_keyed :
+  forall (U : UserFn),
+    (forall ms, concat_maps_top ms = kstep (concat_key concat_maps_top) ms) /\
+    (forall ms, concat_mmaps ms = kstep concat_mkey ms).
+Proof. intros U. split; [exact concat_maps_top_is_kstep|reflexivity]. Qed.
 
 Definition ex_tc (i : option Z) (id args : string) (e : N) : toolcall := mkTC i id "" "" args e.
 Definition ex_m1 : msg :=
@@ -197,11 +322,50 @@ Example msglist_rechunk_nonvacuous_err :
     msglist_stream [[Some ex_m1]; [Some ex_m2]; [Some ex_m3; None]] = Err E_LEN.
 Proof. eexists. split; [vm_compute; reflexivity|]. split; vm_compute; reflexivity. Qed.
 
+Example msgmap_rechunk_nonvacuous :
+  let xs := [[("a"%string, MVMsg ex_m1); ("s"%string, MVVal (CStr "x")); ("n"%string, MVVal CNil)];
+             [("a"%string, MVMsg ex_m2); ("p"%string, MVPtrNil)]] in
+  let ys := [[("s"%string, MVVal (CStr "y")); ("a"%string, MVMsg ex_m3); ("n"%string, MVMsg ex_m3)]] in
+  exists c, mmap_stream xs = Ok c /\ alist_get "p"%string c = Some MVPtrNil /\ alist_get "n"%string c = Some (MVVal CNil) /\
+    exists r, mmap_stream (c :: ys) = Ok r /\ mmap_stream (xs ++ ys) = Ok r /\
+      alist_get "s"%string r = Some (MVVal (CStr "xy")) /\ alist_get "n"%string r = Some (MVMsg ex_m3) /\
+      exists m, alist_get "a"%string r = Some (MVMsg m) /\ concat_msgs [Some ex_m1; Some ex_m2; Some ex_m3] = Ok m.
+Proof.
+  eexists. split; [vm_compute; reflexivity|]. split; [reflexivity|]. split; [reflexivity|].
+  eexists. split; [vm_compute; reflexivity|]. split; [vm_compute; reflexivity|]. split; [reflexivity|]. split; [reflexivity|].
+  eexists. split; [reflexivity|]. vm_compute. reflexivity.
+Qed.
+
+Example msgmap_rechunk_nonvacuous_err :
+  mmap_stream [[("a"%string, MVMsg ex_m1)]; [("a"%string, MVVal (CStr "x"))]] = Err E_TYPE /\
+  mmap_stream [[("a"%string, MVMsg ex_m1)]; [("a"%string, MVPtrNil)]] = Err E_NILMSG /\
+  exists c, mmap_stream [[("a"%string, MVMsg ex_m1)]; [("a"%string, MVMsg ex_m2)]] = Ok c /\
+    mmap_stream [c; [("a"%string, MVPtrNil)]] = Err E_NILMSG /\
+    mmap_stream [[("a"%string, MVMsg ex_m1)]; [("a"%string, MVMsg ex_m2)]; [("a"%string, MVPtrNil)]] = Err E_NILMSG.
+Proof.
+  split; [vm_compute; reflexivity|]. split; [vm_compute; reflexivity|].
+  eexists. split; [vm_compute; reflexivity|]. split; vm_compute; reflexivity.
+Qed.
+
+Example interleaving_nonvacuous :
+  let a1 := [("a"%string, MVMsg ex_m1)] in let a2 := [("a"%string, MVMsg ex_m2)] in
+  let b1 := [("b"%string, MVVal (CStr "x"))] in let b2 := [("b"%string, MVVal (CStr "y"))] in
+  (forall k, gvals_at k [a1; b1; a2; b2] = gvals_at k [b1; b2; a1; a2]) /\
+  exists r r', concat_mmaps [a1; b1; a2; b2] = Ok r /\ concat_mmaps [b1; b2; a1; a2] = Ok r' /\
+    map fst r = ["a"%string; "b"%string] /\ map fst r' = ["b"%string; "a"%string] /\
+    alist_get "b"%string r = Some (MVVal (CStr "xy")) /\ alist_get "b"%string r' = Some (MVVal (CStr "xy")).
+Proof.
+  split.
+  - intros k. unfold gvals_at. cbn. destruct (String.eqb k "a") eqn:Ea, (String.eqb k "b") eqn:Eb; try reflexivity.
+    apply String.eqb_eq in Ea, Eb. congruence.
+  - eexists. eexists. split; [vm_compute; reflexivity|]. split; [vm_compute; reflexivity|]. repeat split.
+Qed.
+
 (* Order: the content is the arrival-order concatenation; tool calls without index come
    first in arrival order; then exactly one call per distinct index, ascending, whose
    arguments are the arrival-order concatenation of the fragments carrying that index. *)
 Theorem order_kept :
-  forall (l : list (option msg)) (r : msg),
+  forall (U : UserFn) (l : list (option msg)) (r : msg),
     concat_msgs l = Ok r ->
     exists ms, all_some l = Some ms /\
       m_content r = concat_strings (map m_content ms) /\
@@ -212,7 +376,7 @@ Theorem order_kept :
         StronglySorted Z.lt il /\
         (forall i, In i il <-> exists c, In c cs /\ tc_idx c = Some i) /\
         Forall2 (fun i m => tc_args m = concat_strings (map tc_args (filter (has_idx i) cs))) il merged.
-Proof. exact order_kept_proof. Qed.
+Proof. exact @order_kept_proof. Qed.
 Print Assumptions order_kept.
 
 (* ------------------------------------------------------------------ what every field becomes *)
@@ -227,7 +391,7 @@ Print Assumptions order_kept.
    chunk appears once and holds the concatenation of the values found under it, in arrival
    order. *)
 Theorem fields_merged :
-  forall (l : list (option msg)) (r : msg),
+  forall (U : UserFn) (l : list (option msg)) (r : msg),
     concat_msgs l = Ok r ->
     exists ms, all_some l = Some ms /\
       pick (map m_role ms) = Ok (m_role r) /\
@@ -241,7 +405,7 @@ Theorem fields_merged :
       map fst (m_extra r) = keys_of ex /\
       forall k, In k (keys_of ex) ->
         exists v, concat_key concat_maps_top (vals_at k ex) = Ok v /\ alist_get k (m_extra r) = Some v.
-Proof. exact fields_spec. Qed.
+Proof. exact @fields_spec. Qed.
 Print Assumptions fields_merged.
 
 (* "first non-empty value wins, a different non-empty value is an error", exactly *)
@@ -281,7 +445,7 @@ Proof. repeat split; vm_compute; reflexivity. Qed.
    [concat_stream] (the function the correspondence check evaluates), or both fail (the
    error reported may belong to another key), or both panic (never, by concat_total). *)
 Theorem concat_deterministic :
-  forall (s : sched) (vs vs' : list cval),
+  forall (U : UserFn) (L : UserLaw) (s : sched) (vs vs' : list cval),
     sched_ok s -> Forall2 ceq vs vs' ->
     match concat_stream_o s vs, concat_stream vs' with
     | Ok a, Ok b => ceq a b
@@ -289,7 +453,7 @@ Theorem concat_deterministic :
     | Panic, Panic => True
     | _, _ => False
     end.
-Proof. exact concat_stream_order. Qed.
+Proof. exact @concat_stream_order. Qed.
 Print Assumptions concat_deterministic.
 
 (* [ceq] is an equivalence relation (so "the same Go value" is meaningful) *)
@@ -300,7 +464,7 @@ Print Assumptions ceq_equivalence.
 
 (* the same for concatMaps on any number of maps (the Extra maps of chat messages) *)
 Theorem concat_maps_deterministic :
-  forall (s : sched) (xs xs' : list (list (string * cval))),
+  forall (U : UserFn) (L : UserLaw) (s : sched) (xs xs' : list (list (string * cval))),
     sched_ok s -> Forall2 meq xs xs' ->
     match concat_maps_top_o s xs, concat_maps_top xs' with
     | Ok a, Ok b => meq a b
@@ -308,7 +472,7 @@ Theorem concat_maps_deterministic :
     | _, _ => False
     end.
 Proof.
-  intros s xs xs' Hs H. pose proof (concat_maps_order s xs xs' Hs H) as R.
+  intros U L s xs xs' Hs H. pose proof (concat_maps_order s xs xs' Hs H) as R.
   pose proof (concat_maps_top_no_panic xs') as P.
   destruct (concat_maps_top_o s xs), (concat_maps_top xs'); cbn in R; try contradiction; auto.
 Qed.
@@ -364,7 +528,7 @@ Print Assumptions toolcalls_deterministic.
 
 (* ConcatMessages with both sources of arbitrary order, on any rendering of the chunks *)
 Theorem msg_concat_deterministic :
-  forall (po : list Z -> list Z) (s : sched) (l l' : list (option msg)),
+  forall (U : UserFn) (L : UserLaw) (po : list Z -> list Z) (s : sched) (l l' : list (option msg)),
     (forall x, Permutation (po x) x) -> sched_ok s -> Forall2 omsg_same l l' ->
     match concat_msgs_o po s l, concat_msgs l' with
     | Ok a, Ok b => msg_same a b
@@ -372,7 +536,7 @@ Theorem msg_concat_deterministic :
     | _, _ => False
     end.
 Proof.
-  intros po s l l' Hpo Hs H. pose proof (concat_msgs_order po s l l' Hpo Hs H) as R.
+  intros U L po s l l' Hpo Hs H. pose proof (concat_msgs_order po s l l' Hpo Hs H) as R.
   pose proof (concat_msgs_no_panic l') as P.
   destruct (concat_msgs_o po s l), (concat_msgs l'); cbn in R; try contradiction; auto.
 Qed.
